@@ -266,7 +266,7 @@ func bornOf(c *core.Ctx, fn *ssa.Function, v ssa.Value, at *ssa.BasicBlock, sum 
 					res.why = append(res.why, "field "+r.String()+" of a foreign type")
 					return
 				}
-				sts := c.FieldStores(r.Struct.Obj().Pkg().Path(), r.Struct.Obj().Name(), r.Name)
+				sts := c.FieldStores(r.Struct.Obj().Pkg().Path(), core.StructName(r.Struct), r.Name)
 				res.maybeNil = true // zero value / cleared
 				for _, s := range sts {
 					if isZeroConst(s.Val) || core.IsNilConst(s.Val) {
